@@ -31,6 +31,7 @@ from yamlpath.enums import (
     YAMLValueFormats,
 )
 from yamlpath.wrappers import NodeCoords
+from yamlpath.exceptions import YAMLPathException
 from yamlpath import YAMLPath
 
 
@@ -473,6 +474,43 @@ class Nodes:
             default_value = CommentedMap()
 
         return default_value
+
+    @staticmethod
+    def require_buildable_path(yaml_path: YAMLPath, depth: int) -> None:
+        """
+        Ensure the rest of a YAML Path can be built where nothing exists yet.
+
+        Beneath an element that does not exist, only Hash keys and non-negative
+        Array indexes can be created; build_next_node knows no other kind of
+        segment and hands back the final value for it.  Call this before
+        building anything so that a YAML Path which goes on with any other
+        kind of segment -- a wildcard, search, slice, Anchor, Collector, or
+        negative index -- is refused rather than resolved within the value it
+        was meant to lead to.
+
+        Parameters:
+        1. yaml_path (YAMLPath) The pre-parsed YAML Path to follow
+        2. depth (int) Index of the first YAML Path segment to be built
+
+        Returns:  N/A
+
+        Raises:
+        - `YAMLPathException` when any segment from depth onward is neither
+          a Hash key nor a non-negative Array index.
+        """
+        segments = yaml_path.escaped
+        for (typ, attrs) in list(segments)[depth:]:
+            if typ == PathSegmentTypes.KEY or (
+                typ == PathSegmentTypes.INDEX
+                and isinstance(attrs, int) and attrs >= 0
+            ):
+                continue
+            raise YAMLPathException(
+                ("Cannot add {} subreference to nodes which do not exist;"
+                 " only Hash keys and non-negative Array indexes can be"
+                 " created").format(str(typ)),
+                str(yaml_path),
+                str(attrs))
 
     @staticmethod
     def append_list_element(
